@@ -473,7 +473,7 @@ static rc::Gen<G> genDict() {
     auto poolsz = rc::gen::weightedOneOf<int>({{4, irange(1, 9)}, {2, irange(10, 70)}, {1, irange(250, 300)}});
     if (w == 6) {
       return rc::gen::mapcat(poolsz, [w](int k) {
-        return rc::gen::map(rc::gen::pair(rc::gen::container<std::vector<Bytes>>((size_t)k, gen::bytesGen(12)), gen::anySeq(16)),
+        return rc::gen::map(rc::gen::pair(rc::gen::container<std::vector<Bytes>>((size_t)k, gen::bytesGen(12)), gen::anySeq(16, false)),
                             [w, k](const std::pair<std::vector<Bytes>, std::vector<uint32_t>> &p) {
                               G g; g.w = w;
                               for (uint32_t i : p.second) g.strs.push_back(p.first[i % (uint32_t)k]);
@@ -482,7 +482,7 @@ static rc::Gen<G> genDict() {
       });
     }
     return rc::gen::mapcat(poolsz, [w](int k) {
-      return rc::gen::map(rc::gen::pair(rc::gen::container<std::vector<uint64_t>>((size_t)k, gen::f64bits()), gen::anySeq(16)),
+      return rc::gen::map(rc::gen::pair(rc::gen::container<std::vector<uint64_t>>((size_t)k, gen::f64bits()), gen::anySeq(16, false)),
                           [w, k](const std::pair<std::vector<uint64_t>, std::vector<uint32_t>> &p) {
                             G g; g.w = w;
                             for (uint32_t i : p.second) { uint64_t x = p.first[i % (uint32_t)k]; g.ints.push_back((w == 1 || w == 4) ? (int64_t)(uint32_t)x : (int64_t)x); }
